@@ -681,6 +681,33 @@ static void check_c11(const TypeOps& t) {
       }
     }
   }
+  // second pass without state merging: two histories that reach the same observable value may differ in state the
+  // value tree does not show (spare capacity, a stale error code, a half-read element); every pair and triple
+  // (op1[, op2], read) from a fresh object is executed as well
+  {
+    std::vector<Op> reads;
+    for (auto& o : ops) if (o.kind == 'R') reads.push_back(o);
+    uint64_t n = 0;
+    for (auto& o1 : ops) {
+      for (size_t second = 0; second <= (A.thorough() ? ops.size() : 0); second++) {
+        for (auto& rd : reads) {
+          std::string hs = opname(o1) + ";" + (second ? opname(ops[second - 1]) + ";" : "");
+          auto idf = CASE_ID("C11|" + t.name + "|seq|" + hs + opname(rd));
+          const bool report = selected(idf);
+          if (out_of_time()) { R.add("incomplete"); return; }
+          Obj obj(t);
+          apply(obj, o1, "", false);
+          if (second) apply(obj, ops[second - 1], "", false);
+          apply(obj, rd, "seq|" + hs, report);
+          n++;
+        }
+        if (o1.kind == 'R' && !A.thorough()) break;
+      }
+    }
+    R.counters["transitions"] += n;
+    R.counters["evaluations"] += n;
+    R.counters["sequences_without_merging"] += n;
+  }
   R.counters["states"] += seen.size();
   R.distinct_direct += seen.size();
   R.counters["max_depth"] = std::max<uint64_t>(R.counters["max_depth"], maxd);
